@@ -7,12 +7,22 @@
           25 = TemplateModel.get_waveforms is not the window (integration route): with a store holding the
                queried ids, the scaled window on the stored channels (as 24); otherwise, with raw data, the
                windows at spike_samples[spike_ids] (as 21)
+          26 = C03_iter_any_order (stage 3; spike vector NOT sorted -- outside the statement, kept to mark the
+               boundary): the exported file holds every spike's window x factor exactly once, chunk by chunk in
+               the vector's order (by_chunk); shape/dtype are judged by 22
+          27 = C03_npy_writer / C03_npy_writer_iff (stage 3; NpyWriter used directly with an arbitrary sequence of
+               chunks): when the element count equals the declared shape and every chunk has the declared dtype,
+               the file loads (np.load, plain and mmap) with the declared shape/dtype and holds the appended
+               elements in order; everything else (too few elements: unloadable; too many: the first prod(shape);
+               narrower dtype: unloadable; other trailing dimensions: append asserts) is judged by equality with
+               the byte-level model (code 1)
           3  = input outside the stated regime (harness bug)
    Sample values are the integers 10*row + col + 1 (never 0, so padding is visible); exported and
    looked-up values are compared multiplied by 2 (the factors are multiples of 1/2), so everything
    is an exact integer. *)
 From Coq Require Import ZArith List Lia Bool.
-From PV Require Export Base.PySlice Base.NpSearch Base.NpList C16.Model C16.Spec C03.Model C03.Spec.
+From PV Require Export Base.PySlice Base.NpSearch Base.NpList C16.Model C16.Spec C03.Model C03.Spec C03.ModelNpy.
+From PV Require Import C03.Proofs C03.Proofs5.   (* in_range, by_chunk *)
 Import ListNotations.
 Open Scope Z_scope.
 
@@ -44,7 +54,11 @@ Inductive input :=
    (_phy_spikes_subset.*.npy) exported by phylib itself from the model's traces: ids, channel table, unit
    factor; [q_ch = None] = channel_ids omitted.  Values are compared multiplied by 2. *)
 | InModel (nr nc : Z) (samples : list Z) (n : Z) (has_raw : bool) (st : option mstore)
-          (q_ids : list Z) (q_ch : option (list Z)).
+          (q_ids : list Z) (q_ch : option (list Z))
+(* stage 3: export_waveforms with a spike vector in ANY order (the statement says sorted) *)
+| InExportAny (nr nc : Z) (ch : chunking) (spikes : list spike) (n w : Z) (k : fkind) (f2 : Z)
+(* stage 3: NpyWriter(path, shape, d); append(c) for c in cs; close(); np.load(path) and np.load(path, mmap_mode='r') *)
+| InNpy (shape : list Z) (d : dtype) (cs : list (ndarr Z)).
 
 Inductive observed :=
 | ObsWaves (shape : list Z) (w : list (list (list Z)))
@@ -52,6 +66,8 @@ Inductive observed :=
 | ObsUnloadable
 | ObsCrash
 | ObsNone
+| ObsAssert                                               (* AssertionError *)
+| ObsLoad (dt : dtype) (shape : list Z) (flat : list Z)   (* a loaded array of any rank, flattened (C order) *)
 | ObsMany (l : list observed).
 
 Record case := { cid : Z; cin : input; cobs : observed }.
@@ -103,7 +119,7 @@ Definition ms_spikes (samples : list Z) (ms : mstore) : list spike :=
 Definition ms_width (ms : mstore) : Z := match ms_table ms with r :: _ => zlen r | [] => 0 end.
 
 Definition ms_regime (nr nc : Z) (samples : list Z) (n : Z) (ms : mstore) : bool :=
-  (zlen (ms_ids ms) =? zlen (ms_table ms)) && (2 <=? zlen (ms_ids ms)) && (2 <=? ms_width ms) &&
+  (zlen (ms_ids ms) =? zlen (ms_table ms)) && (1 <=? zlen (ms_ids ms)) && (1 <=? ms_width ms) &&
   forallb (fun x => (0 <=? x) && (x <? zlen samples)) (ms_ids ms) && nodupb (ms_ids ms) &&
   export_regime nr nc (ms_ch ms) (ms_spikes samples ms) n (ms_width ms) (ms_f2 ms).
 
@@ -149,6 +165,21 @@ Definition model_claims (samples : list Z) (has_raw : bool) (st : option mstore)
   | None => false
   end ||
   (has_raw && forallb (fun x => (- zlen samples <=? x) && (x <? zlen samples)) q_ids).
+
+(* ---- stage 3 ---- *)
+Definition spikes_in_b (dur c nc : Z) (spikes : list spike) : bool :=
+  forallb (fun sp => (0 <=? sp_s sp) && (sp_s sp <? dur) && chans_ok_b c (sp_ch sp) &&
+                     (zlen (sp_ch sp) =? nc)) spikes.
+Definition export_any_regime (nr nc : Z) (ch : chunking) (spikes : list spike) (n w f2 : Z) : bool :=
+  (1 <=? nr) && (1 <=? nc) && chunking_ok nr ch && spikes_in_b nr nc w spikes && (1 <=? n) &&
+  (1 <=? w) && (1 <=? f2).
+
+Definition arr_ok (c : ndarr Z) : bool :=
+  forallb (fun x => 0 <=? x) (a_shape c) && (zlen (a_flat c) =? zprod (a_shape c)).
+Definition all_dtype (d : dtype) (cs : list (ndarr Z)) : bool := forallb (fun c => dtype_eqb (a_dtype c) d) cs.
+(* the case where the property's export claims the file: right element count, declared dtype everywhere *)
+Definition npy_claims (shape : list Z) (d : dtype) (cs : list (ndarr Z)) : bool :=
+  export_assert shape cs && all_dtype d cs.
 
 (* codes of one observation *)
 Fixpoint check_obs (i : input) (o : observed) : list Z :=
@@ -243,6 +274,44 @@ Fixpoint check_obs (i : input) (o : observed) : list Z :=
           | ObsCrash =>
               flag 1 (match expected with GwError => true | _ => false end) ++ flag 25 (negb claims)
           | _ => [1; 25]
+          end
+      end
+  | InExportAny nr nc ch spikes n w k f2 =>
+      if negb (export_any_regime nr nc ch spikes n w f2) then [3] else
+      match chunks_of_input nr ch with
+      | None => [3]
+      | Some chunks =>
+        match o with
+        | ObsFile dt shape arr =>
+            flag 1 (match model_export nr nc ch spikes n w k f2 with
+                    | Some f => dtype_eqb (npy_descr f) dt && zl_eqb (npy_shape f) shape &&
+                                opt_waves_eqb (np_load f) arr
+                    | None => false
+                    end) ++
+            flag 22 (dtype_eqb dt F64 && export_shape_b spikes n w shape) ++
+            flag 26 (export_spec_b (scaleZ f2) (gen_data nr nc) n (by_chunk chunks spikes) arr)
+        | _ => [1; 22; 26]
+        end
+      end
+  | InNpy shape d cs =>
+      if negb (forallb (fun x => 0 <=? x) shape && (1 <=? zlen shape) && forallb arr_ok cs) then [3] else
+      let claims := npy_claims shape d cs in
+      match npy_file lay_tob lay_hdr shape d cs with
+      | None => match o with ObsAssert => [] | _ => [1] end
+      | Some file =>
+          let expected := np_load_bytes lay_isz lay_fromb lay_parse file in
+          match o with
+          | ObsLoad dt sh flat =>
+              flag 1 (match expected with
+                      | Some (sh', d', els) => zl_eqb sh sh' && dtype_eqb dt d' &&
+                                               (negb (all_dtype d cs) || zl_eqb flat els)
+                      | None => false
+                      end) ++
+              flag 27 (negb claims ||
+                       (zl_eqb sh shape && dtype_eqb dt d && zl_eqb flat (flat_map (@a_flat Z) cs)))
+          | ObsUnloadable =>
+              flag 1 (match expected with None => true | Some _ => false end) ++ flag 27 (negb claims)
+          | _ => 1 :: flag 27 (negb claims)
           end
       end
   end
